@@ -192,6 +192,17 @@ Proof.
   rewrite sview_clean by exact Hc. cbn [fst snd]. rewrite Hb, skipz_nonpos by lia. reflexivity.
 Qed.
 
+(* a DAG with true sizes, declared or measured, reads back: whole value, every history, length *)
+Theorem read_unsized b : uwell b = true ->
+  fst (fst (drain_all (ustream nofault b 0) [] [])) = content b
+  /\ snd (drain_all (ustream nofault b 0) [] []) = StEOF
+  /\ (forall ops, map forget_loads (ureader_run nofault b rs0 ops) = abs_run (content b) 0 ops)
+  /\ usize nofault b = Ok (zlen (content b)).
+Proof.
+  intros Hw. rewrite (unsized_read_all b Hw). cbn [fst snd].
+  split; [reflexivity|]. split; [reflexivity|]. split; [intros ops; apply ureader_refines_fresh; exact Hw|apply usize_ok; exact Hw].
+Qed.
+
 (* ---- the clause that fails: "exactly the bytes that precede the unavailable block's span" ---- *)
 Definition ex_leaf (c : bytes) : blk :=
   Pb (Some ([8; 2; 18; N.of_nat (length c)] ++ c ++ [24; N.of_nat (length c)])%N) [].
